@@ -324,9 +324,60 @@ def replay(path):
     return vcheck.main([rec["property"], "--tier", rec.get("tier", "quick")])
 
 
+def claim_c01(kind, mm):
+    k = kind.split(":")[0]
+    if k in ("Publish", "Pull"):
+        return True
+    if k in ("Ack", "ModAck", "StreamAckNack", "Job", "DeleteSub", "SeekTime", "SeekSnap", "UpdateSub", "CreateSub", "DeleteTopic"):
+        return "MDels" in mm or "MMsgs" in mm or "delivery" in mm
+    return False
+
+
+def claim_c03(kind, mm):
+    return kind.split(":")[0] in ("Ack", "ModAck", "StreamAckNack")
+
+
+def claim_c12(kind, mm):
+    k = kind.split(":")[0]
+    return k in ("CreateTopic", "GetTopic", "DeleteTopic", "ListTopics", "ListTopicSubs", "CreateSub", "GetSub", "DeleteSub", "ListSubs",
+                 "CreateSnap", "GetSnap", "DeleteSnap", "ListSnaps") and any(t in mm for t in ("MResp", "MTopics", "MSubs", "MSnaps", "fresh"))
+
+
+def claim_c13(kind, mm):
+    return kind.split(":")[0] in ("SeekTime", "SeekSnap", "SeekNoTarget", "CreateSnap")
+
+
+BUS_ASSUME = ["SQLite with immediate transactions: serialisable, FK and unique constraints enforced (modelled)",
+              "virtual time by shifting stored timestamps; steps whose call spans a stored deadline are skipped and counted",
+              "fresh ids, LIMIT choices, written timestamps and retry jitter are observed oracles whose legality the model checks",
+              "identifiers are never reused (history theorems)"]
+
 T_FLOAT = "float assumption: Go's float64 evaluation of min*1.1^n stays within 2 ns of the exact rational value (checked on a grid, not proved)"
 
 CHECKS = {
+    "C01": dict(
+        props=["C01"],
+        parts=[engine_part("delivery", 32, 600, 45, claim_c01, ["deliveries_created", "pull_nonempty", "redelivery", "nack_rescheduled"])],
+        rule="generated histories (profile delivery: publish/pull/ack/modack/nack/seek/jobs/clock jumps) against the production gRPC server; every step is checked "
+             "locally: model step from the implementation's pre-state vs response and full five-table post-state; non-trivial = deliveries created, non-empty pulls, redeliveries",
+        assumptions=BUS_ASSUME),
+    "C03": dict(
+        props=["C03"],
+        parts=[engine_part("delivery", 32, 600, 45, claim_c03, ["ack_effective", "ack_noop", "modack_effective", "nack_rescheduled"])],
+        rule="same engine; owned projection: Acknowledge / ModifyAckDeadline / stream ack+nack steps (duplicate, stale, foreign, garbage ids; nack and deadline changes after ack); "
+             "non-trivial = acks that completed something, no-op acks, effective deadline changes, nacks",
+        assumptions=BUS_ASSUME),
+    "C12": dict(
+        props=["C12"],
+        parts=[engine_part("names", 32, 600, 45, claim_c12, ["snapshot_created", "publish_ok"])],
+        rule="engine profile names: create/delete/re-create/get/list of topics, subscriptions, snapshots in projects p, P, p%, p_, pp, p/x with page sizes 0,1,2,3,100,-1,1000 and followed page tokens",
+        assumptions=BUS_ASSUME + ["concurrent creates of one name are serialised by the database (C12 race half is the unique index + serialisable transactions: assumed)"]),
+    "C13": dict(
+        props=["C13"],
+        parts=[engine_part("seek", 32, 600, 45, claim_c13, ["seek_effective", "snapshot_created"])],
+        rule="engine profile seek: publish / pull / partial ack / snapshot / seek to exact publish instants, +-1 ns, past, future, and to own and sibling snapshots, repeated; "
+             "non-trivial = seeks that changed rows, snapshots created",
+        assumptions=BUS_ASSUME + ["snapshot_meaning assumes plain deliveries (no dead-letter forwards into the subscription)"]),
     "C18": dict(
         props=["C18"],
         parts=[part_faults_seq, part_faults_sched],
